@@ -19,7 +19,7 @@ from ..core import Ctx
 from . import common
 from .c13 import type_class
 
-RULE = ("integers (0, +-1, int32/int64 limits and beyond), floats in every notation repr() produces (1e-07, 1e+22, 5e-324, max double, -0.0, inf, nan), booleans, strings over an alphabet with "
+RULE = ("equal-but-distinct constants side by side (0.0 / -0.0 / 0 / False, 1 / 1.0 / True, 2 / 2.0) in random orders; integers (0, +-1, int32/int64 limits and beyond), floats in every notation repr() produces (1e-07, 1e+22, 5e-324, max double, -0.0, inf, nan), booleans, strings over an alphabet with "
         "quotes, backslashes, newline/tab, %, braces, trigraph-like ??/, non-ASCII, empty, 1 KiB, in the positions: output value, bank name, attribute name, injected-function argument, "
         "tree name, branch name; distinct = distinct (backend, position, constant class); non-trivial = every case")
 ASSUME = ["'rejected' = translation raises (any exception type)", "floats are compared bit for bit via the job's %.17g print"]
@@ -79,6 +79,17 @@ def run(ctx: Ctx) -> int:
                 c = diff.Case(backend, q, evs0, diff.members_used(s, q), tag={"pos": pos, "kind": kind, "value": repr(v)})
                 c.allow_nonfinite = True  # type: ignore
                 cases.append(c)
+        # ---- constants that compare EQUAL in Python but denote different values / kinds, side by side in one query and in
+        # every order (a rendering that goes through an equality-keyed table or cache confuses them)
+        EQ = [("0.0", 0.0), ("NEGZERO", -0.0), ("1", 1), ("True", True), ("1.0", 1.0), ("0", 0), ("False", False), ("2", 2), ("2.0", 2.0)]
+        for k in range(4 if ctx.quick else 24):
+            R = ctx.rng("c18eq", backend, k)
+            sel = R.sample(EQ, R.choice([4, 6, 9]))
+            q = f"ds.Select(lambda e: ({', '.join(t for t, _ in sel)}, e.{C}('A').Count()))"
+            c = diff.Case(backend, q, evs0, diff.members_used(s, q), tag={"pos": "equal_constants", "kind": "mixed", "value": repr([t for t, _ in sel]), "values": [v for _, v in sel]})
+            cases.append(c)
+            q = f"ds.SelectMany(lambda e: e.{C}('A')).Select(lambda j: ({', '.join('j.pt() * 0 + ' + t for t, v in sel if not isinstance(v, bool))}, j.pt()))"
+            cases.append(diff.Case(backend, q, evs0, diff.members_used(s, q), tag={"pos": "equal_constants_arith", "kind": "mixed", "value": repr([t for t, _ in sel])}))
         # ---- strings
         strs = STRINGS if not ctx.quick else STRINGS
         for sv in strs:
@@ -157,6 +168,8 @@ def const_class(t) -> str:
     if t["kind"] == "int":
         iv = int(v)
         return "int32" if -(2 ** 31) < iv < 2 ** 31 else "int_wide"
+    if t["kind"] == "mixed":
+        return "equal_but_distinct_constants"
     if t["kind"] == "float":
         f = float(v)
         if math.isinf(f) or math.isnan(f):
@@ -168,6 +181,27 @@ def const_class(t) -> str:
 def check_received(c: diff.Case, r: Dict[str, Any]) -> Optional[str]:
     t = c.tag
     run = r["run"]
+    if t["pos"] == "equal_constants":
+        want = t["values"]
+        for ev in run["events"].values():
+            for row in ev["rows"]:
+                for (name, got), v in zip(row["cols"], want):
+                    if isinstance(v, bool):
+                        ok = got is v
+                    elif isinstance(v, int):
+                        ok = isinstance(got, int) and not isinstance(got, bool) and got == v
+                    else:
+                        ok = isinstance(got, (int, float)) and not isinstance(got, bool) and bits(got) == bits(v)
+                    if not ok:
+                        return f"constant {v!r} of column {name} arrived as {got!r}"
+        for br, v in zip(run["book"][0]["branches"], want):
+            tc = type_class(br["type"])
+            w = "bool" if isinstance(v, bool) else "int" if isinstance(v, int) else "float"
+            if tc != w:
+                return f"constant {v!r} of kind {w} booked as {br['type']}"
+        return None
+    if t["kind"] == "mixed":
+        return None  # values compared by the differential verdict
     if t["kind"] != "str":
         # values already compared by the differential verdict to 1e-9; require bit-exactness and the type class here
         v = eval(t["value"]) if t["value"] not in ("inf", "-inf", "nan") else float(t["value"])
